@@ -264,6 +264,25 @@ def make_tasks(W, quick, rng):
         tasks.append(dict(name='twin/int-literal-dirty/%d/w%d' % (c, W), W=W, bind={'y': c},
                           csrc=DIRTY + "empty @is_you(int x) { scribble(); int[] s = [%d, %d, x]; sleep(s[0]); sleep(s[1]); scribble(); byte[] b = [%d, %d, %d]; sleep(b[0]); sleep(b[2]); }\n" % (c, c, c, c, c),
                           vsrc=DIRTY + "empty @is_you(int x, int y) { scribble(); int[] s = [y, y, x]; sleep(s[0]); sleep(s[1]); scribble(); byte q = y is byte; byte[] b = [q, q, q]; sleep(b[0]); sleep(b[2]); }\n"))
+    # arithmetic over character constants (folded) vs the same arithmetic over byte variables, results outside the byte range, int consumers
+    for a, b in (("'A'", "'a'"), ("'a'", "'z'"), ("'z'", "'\\x01'"), ("'\\xff'", "'\\xff'")):
+        av, bvv = eval(a.replace('\\\\', '\\')), eval(b.replace('\\\\', '\\'))
+        tasks.append(dict(name='twin/char-arith/%d-%d/w%d' % (ord(av), ord(bvv), W), W=W, bind={'p': ord(av), 'q': ord(bvv)},
+                          csrc="const int KD = %s - %s;\nempty @is_you(int x) { sleep(%s - %s); sleep(%s * 3); sleep(-%s); sleep(x + (%s - %s)); sleep(KD); sleep(1000 + (%s - %s)); sleep((%s + %s) * 2); write((%s - %s) is byte); "
+                               "if (%s - %s < 0) { write('n'); } else { write('p'); } }\n" % (a, b, a, b, a, a, a, b, a, b, a, b, a, b, a, b),
+                          vsrc="empty @is_you(int x, byte p, byte q) { int kd = p - q; sleep(p - q); sleep(p * 3); sleep(-p); sleep(x + (p - q)); sleep(kd); sleep(1000 + (p - q)); sleep((p + q) * 2); write((p - q) is byte); "
+                               "if (p - q < 0) { write('n'); } else { write('p'); } }\n"))
+    # equal-looking constant tables of different element types, hoisted literals in both orders, against tables built from variables
+    for first in ('bytes', 'bools'):
+        d = ["const byte[] digits = [1, 0, 1];", "const bool[] flags = [true, false, true];"]
+        dv = ["byte[] digits = [o, z, o];", "bool[] flags = [t, f, t];"]
+        if first == 'bools':
+            d.reverse()
+            dv.reverse()
+        tasks.append(dict(name='twin/table-types/%s/w%d' % (first, W), W=W, bind={'y': 1},
+                          csrc="empty @is_you(int x) { int i = x %% 3; %s %s write(digits[i]); sleep(flags[i] is int); sleep([true, false, true][i] is int); write(([1, 0, 1] is byte[])[i]); sleep([1, 0, 1][i]); }\n" % tuple(d),
+                          vsrc="empty @is_you(int x, int y) { int i = x %% 3; byte o = y is byte; byte z = 0; bool t = y is bool; bool f = false; %s %s write(digits[i]); sleep(flags[i] is int); sleep([t, f, t][i] is int); "
+                               "write(([o, z, o] is byte[])[i]); sleep([y, 0, y][i]); }\n" % tuple(dv)))
     # boolean constants
     for op in ('and', 'or', '==', '!='):
         for a in ('true', 'false'):
